@@ -36,8 +36,18 @@ Streams
              (table `Gen.patterns`): `match` of the real pattern == the model's matcher on sampled
              subjects; every loop of every pattern pumped under a timer; a pattern that does not
              come back is put into a source file of a project (oracle O2).
+  diagnostics : harness/c20diag.py - what reaches the terminal: rejected files under names / in directories
+             decorated with everything a console interprets (brackets, backslashes, colons, ...), reader errors
+             and INCLUDEs that quote Fortran-like token lines; run as a user runs FORD (the real
+             `ford.console.warn`, progress bar on); O1-O3 on the text `warn` printed; rich's `escape` / `render`,
+             `warn` and the progress bar == the model lean/FordModel/Markup.lean (tables `warnSpec`,
+             `progressSpec`, `rejectionMsg`).
+  preprocessed : same module - additional files with a preprocessed extension (default settings: pcpp) and a
+             broken directive from a grammar of malformed preprocessor input; O1-O3.
   e2e      : a few complete runs (ford.main): the generated site with a rejected bad file is
              byte-identical to the site without it.
+In the projects stream the additional file is carried as free form `.f90`, through the preprocessor (`.F90`)
+or in fixed form (`.f`) - same statements, same model outcome; `ford.console.warn` is the real one (wrapped).
 """
 from __future__ import annotations
 
@@ -93,7 +103,8 @@ SPELL = {
     "variableParen": ["character(len=3) :: {n}"],
     "use": ["use {n}", "use {n}, only: a", "use :: {n}",
             "use {n}, only: first_long_entity_name, second_long_entity_name => renamed_entity_name"],
-    "callParen": ["call {n}(1)", "{n} = f(1)", "call {n}()", "call {n}(maximum_iteration_count, convergence_tolerance_value)"],
+    "callParen": ["call {n}(1)", "{n} = f(1)", "call {n}()", "call {n}(maximum_iteration_count, convergence_tolerance_value)",
+                  "call a%{n}(1)", "call lbl%{n}()"],
     "callBare": ["call {n}"],
     # list-like statements, also with the long descriptive names and the several groups per statement of real code
     "namelist": ["namelist /{n}/ a, b", "NAMELIST /{n}/ a",
@@ -716,6 +727,26 @@ def paths_of(ent, prefix=""):
     return out
 
 
+def details_of(ent, prefix=""):
+    """what is recorded *inside* every entity below `ent` right after Project() returned: the names of its
+    variables, its call chains as parsed, the modules it uses (state shared between files - class attributes,
+    module globals of the parser - would show up here, in the valid files read after a rejected one)"""
+    out = []
+    for attr in WALK:
+        for c in getattr(ent, attr, None) or []:
+            e = f"{attr}:{getattr(c, 'name', None)}"
+            try:
+                vs = [str(getattr(v, "name", v)) for v in (getattr(c, "variables", None) or [])]
+                calls = ["%".join(x) if isinstance(x, (list, tuple)) else str(getattr(x, "name", x))
+                         for x in (getattr(c, "calls", None) or [])]
+                uses = [str(u[0] if isinstance(u, (list, tuple)) else getattr(u, "name", u)) for u in (getattr(c, "uses", None) or [])]
+                out.append(f"{prefix}{e}|vars={','.join(vs)}|calls={','.join(calls)}|uses={','.join(uses)}")
+            except Exception as exc:  # noqa
+                out.append(f"{prefix}{e}|!{type(exc).__name__}")
+            out += details_of(c, prefix + e + "/")
+    return out
+
+
 def idents_of(ent, prefix=""):
     """path=identifier of every entity below `ent`, asking in the order of the walk"""
     out = []
@@ -797,10 +828,18 @@ class Real:
         self.n = 0
         self.hangs = 0
 
-    def run(self, files: list[tuple[str, object]], dbg=True, force=False, watchdog=None):
+    def run(self, files: list[tuple[str, object]], dbg=True, force=False, watchdog=None, disk=None, progress=False):
         """files: ordered (role name, text|bytes).  Returns an observation dict in which every
         file is called by its role name again; obs["read_order"] is the order in which the
-        implementation really started the per-file constructor."""
+        implementation really started the per-file constructor.
+        `disk`: role name -> path below the source directory (default: `disk_names`; the diagnostics
+        stream passes decorated names, possibly in a sub-directory).  `progress`: run with the
+        progress bar of the per-file loop switched on, as a user's run has it (the harness otherwise
+        sets FORD_DEBUGGING, which disables it).
+        `ford.console.warn` is NOT replaced: the wrapper records the message and what the real
+        function put on the terminal (obs["warn_rendered"])."""
+        import shutil
+
         fp, sf = self.fp, self.sf
         self.n += 1
         if watchdog is None:
@@ -808,18 +847,35 @@ class Real:
         d = self.root / f"p{self.n % 8}"
         if d.exists():
             for p in d.iterdir():
-                p.unlink()
+                if p.is_dir() and not p.is_symlink():
+                    shutil.rmtree(p)
+                else:
+                    p.unlink()
         d.mkdir(exist_ok=True)
-        disk = disk_names([name for name, _ in files])
-        role = {v: k for k, v in disk.items()}
+        disk = dict(disk) if disk is not None else disk_names([name for name, _ in files])
+        role = {}
+        for k_, v_ in disk.items():
+            role[v_] = k_
+            role[Path(v_).name] = k_
         for name, body in files:
+            pth = d / disk[name]
+            pth.parent.mkdir(parents=True, exist_ok=True)
             if isinstance(body, bytes):
-                (d / disk[name]).write_bytes(body)
+                pth.write_bytes(body)
             else:
-                (d / disk[name]).write_text(body)
+                pth.write_text(body)
         order = [d / disk[name] for name, _ in files]
-        warns, excs, read_order = [], {}, []
+        warns, rendered, excs, read_order = [], [], {}, []
         orig_find, orig_warn, orig_ff = fp.find_all_files, fp.warn, fp.Project._fortran_file
+
+        def warn_wrapper(m):
+            warns.append(m)
+            out_ = io.StringIO()
+            try:
+                with contextlib.redirect_stdout(out_), contextlib.redirect_stderr(out_):
+                    orig_warn(m)
+            finally:
+                rendered.append(out_.getvalue())
 
         def ff(self_, extension, filename, settings):
             read_order.append(Path(filename).name)
@@ -857,11 +913,14 @@ class Real:
         obs = {"hang": False, "escaped": None}
         proj = None
         old_handler = signal.signal(signal.SIGALRM, on_alarm)
+        saved_dbg_env = os.environ.get("FORD_DEBUGGING")
         try:
             fp.find_all_files = lambda s: list(order)
-            fp.warn = lambda m: warns.append(m)
+            fp.warn = warn_wrapper
             fp.Project._fortran_file = ff
             os.chdir(d)
+            if progress:
+                os.environ.pop("FORD_DEBUGGING", None)
             signal.alarm(watchdog)
             with contextlib.redirect_stdout(buf), contextlib.redirect_stderr(buf):
                 settings = self.Settings(src_dir=[d], preprocess=False, dbg=dbg, force=force)
@@ -869,8 +928,13 @@ class Real:
                     proj = fp.Project(settings)
                 except Hang:
                     obs["hang"] = True
-                except Exception as e:  # noqa
+                except KeyboardInterrupt:
+                    raise
+                except BaseException as e:  # noqa - SystemExit included: the run is over either way
                     obs["escaped"] = e
+                    import traceback
+                    obs["escaped_tb"] = [f"{Path(fr.filename).parent.name}/{Path(fr.filename).name}:{fr.name}"
+                                         for fr in traceback.extract_tb(e.__traceback__)][-10:]
         except Hang:
             obs["hang"] = True
         finally:
@@ -878,13 +942,18 @@ class Real:
             signal.alarm(0)
             signal.signal(signal.SIGALRM, old_handler)
             fp.find_all_files, fp.warn, fp.Project._fortran_file = orig_find, orig_warn, orig_ff
+            if saved_dbg_env is not None:
+                os.environ["FORD_DEBUGGING"] = saved_dbg_env
             os.chdir(cwd)
         def unrole(text: str) -> str:
-            for dn, rn in role.items():
+            for dn, rn in sorted(role.items(), key=lambda kv: -len(kv[0])):
                 text = text.replace(dn, rn)
             return text
 
         out = unrole(buf.getvalue())
+        obs["disk"] = disk
+        obs["warn_raw"] = list(warns)
+        obs["warn_rendered"] = list(rendered)
         warns = [unrole(w) for w in warns]
         excs = {role.get(k, k): v for k, v in excs.items()}
         obs["read_order"] = [role.get(n_, n_) for n_ in read_order]
@@ -910,6 +979,7 @@ class Real:
         if proj is not None:
             obs["files"] = [role.get(f.name, f.name) for f in proj.files]
             obs["paths"] = {role.get(f.name, f.name): sorted(paths_of(f)) for f in proj.files}
+            obs["details"] = {role.get(f.name, f.name): details_of(f) for f in proj.files}
             obs["lists"] = {
                 "modules": [m.name for m in proj.modules],
                 "submodules": [m.name for m in proj.submodules],
@@ -1066,17 +1136,53 @@ def make_bad(rng, how, stmts):
     return {"form": "stmts", "stmts": stmts, "how": how}
 
 
-def src_text(src, rng):
+def fixed_text(stmts) -> str:
+    """The statements in fixed source form: a numeric label in columns 1-5, the statement from column 7,
+    nothing beyond column 72 (a longer statement is continued - mark in column 6 - at a blank between two tokens)."""
+    lines = []
+    for s in stmts:
+        t = s["text"]
+        m = re.match(r"(\d{1,5})\s+(\S.*)$", t)
+        label, body = (m.group(1), m.group(2)) if m else ("", t)
+        head = label.ljust(5) + " "
+        while len(body) > 66:
+            cuts = [j for j in range(1, 66) if body[j] == " " and body[j - 1] != " " and body[j + 1] != " "]
+            if not cuts:
+                raise common.Infra(f"statement cannot be continued in fixed form: {t!r}")
+            j = cuts[-1]
+            lines.append(head + body[:j])
+            head, body = "     &", body[j + 1:]
+        lines.append(head + body)
+    return "".join(l + "\n" for l in lines)
+
+
+CARRIER_EXT = {"free": ".f90", "fpp": ".F90", "fixed": ".f"}
+
+
+def carrier_disk(names: list[str], carriers: dict[str, str]) -> dict[str, str]:
+    """`disk_names`, with the extension of the additional files set by how they are carried: `.F90` is
+    run through the preprocessor (pcpp, default settings), `.f` is read as fixed form"""
+    disk = disk_names(names)
+    for n_, cr in carriers.items():
+        if cr != "free" and n_ in disk:
+            disk[n_] = disk[n_][: -len(".f90")] + CARRIER_EXT[cr]
+    return disk
+
+
+def src_text(src, rng, carrier="free"):
     if src["form"] == "undecodable":
         return src["bytes"]
     if src["form"] == "reader" or "text" in src:
         return src["text"]
+    if carrier == "fixed":
+        return fixed_text(src["stmts"])
     return text_of(src["stmts"], rng)
 
 
 def run(tier: str, seed: int, replay: str | None = None) -> int:
     from translate import c20 as tr
     from . import c20rx
+    from . import c20diag
 
     rep = Report(PROP, tier, seed)
     lean = lean_prove(PROP, translate=tr.translate, thorough=(tier == "thorough"))
@@ -1093,8 +1199,16 @@ def run(tier: str, seed: int, replay: str | None = None) -> int:
     n_cuts = 14 if quick else 40          # truncations of each laid-out source
     per_stale = 16 if quick else 60       # corruptions of a stale copy of a valid file
     t_start = time.time()
+    stream_s: dict[str, float] = {"lean (translate, build, audit)": round(t_start - rep.t0, 1)}
+
+    def lap(name):
+        nonlocal t_start
+        now = time.time()
+        stream_s[name] = round(now - t_start, 1)
+        t_start = now
 
     ev_rows, bad_rows = row_stream(ford, drv, rep)
+    lap("rows")
 
     hist: dict[str, int] = {}
     out_hist: dict[str, int] = {}
@@ -1102,6 +1216,7 @@ def run(tier: str, seed: int, replay: str | None = None) -> int:
     rep_hist: dict[str, int] = {}
     pos_hist: dict[str, int] = {}
     cut_hist: dict[str, int] = {}
+    carrier_hist: dict[str, int] = {}
     distinct = set()
     n_stale = n_stale_before = n_ident_checks = n_names_checks = 0
     samples = []
@@ -1133,7 +1248,9 @@ def run(tier: str, seed: int, replay: str | None = None) -> int:
             bads.append({"form": "undecodable", "how": "undecodable",
                          "bytes": text_of(base).encode() + b"! caf\xe9 \xff\xfe\n"})
             bads.append({"form": "undecodable", "how": "undecodable", "bytes": b"\xff\xfe\x00m\x00o\x00d\x00"})
-            for amp in ("& x = 1", "&& foo", "x = 1 !> doc after code"):
+            # (the last one: a continuation mark at the start of a line of Fortran-like tokens - brackets,
+            # array constructors old and new, sections, component accesses: the exception text quotes it)
+            for amp in ("& x = 1", "&& foo", "x = 1 !> doc after code", "& " + c20diag.offending_line(rng)):
                 k = rng.randint(0, len(base))
                 bads.append({"form": "reader", "how": "reader-error",
                              "text": text_of(base[:k]) + amp + "\n" + text_of(base[k:])})
@@ -1200,8 +1317,14 @@ def run(tier: str, seed: int, replay: str | None = None) -> int:
                 dbg, force = True, False
                 if rng.random() < 0.06:
                     dbg, force = False, rng.random() < 0.5
+                # how the additional file is carried: free form, through the preprocessor (`.F90`, pcpp with the
+                # default settings), or in fixed form (`.f`); the statements - and so the model - are the same
+                carrier = "free"
+                if bad["form"] == "stmts" and "text" not in bad and "stale_of" not in bad:
+                    carrier = rng.choices(["free", "fpp", "fixed"], [70, 15, 15])[0]
                 cases.append({"gi": gi, "goods": goods, "bad": bad, "pos": pos, "k": k, "extra": extra,
-                              "dbg": dbg, "force": force})
+                              "dbg": dbg, "force": force, "carrier": carrier})
+        lap("generate cases, reader stream")
         # ------------------------------------------------------------ model, batched
         reqs = []
         for c in cases:
@@ -1260,6 +1383,7 @@ def run(tier: str, seed: int, replay: str | None = None) -> int:
                 else:
                     c["m_file"][name] = {"status": "skipped", "err": "decode" if src["form"] == "undecodable" else "reader",
                                          "reps": [], "paths": []}
+        lap("model (batched)")
         # ------------------------------------------------------------ baselines (good files only)
         baselines = {}
         bad_baselines = set()
@@ -1289,8 +1413,10 @@ def run(tier: str, seed: int, replay: str | None = None) -> int:
         for ci, c in enumerate(cases):
             texts, base_obs = baselines[(c["gi"], c["dbg"], c["force"])]
             lrng = random.Random(seed * 31 + ci)
-            files = [(name, texts[name] if name in texts else src_text(src, lrng)) for name, src in c["files"]]
-            obs = real.run(files, c["dbg"], c["force"])
+            files = [(name, texts[name] if name in texts else
+                      src_text(src, lrng, c["carrier"] if name == "bad.f90" else "free")) for name, src in c["files"]]
+            obs = real.run(files, c["dbg"], c["force"],
+                           disk=carrier_disk([n_ for n_, _ in files], {"bad.f90": c["carrier"]}))
             c["real_skipped"] = (not obs["hang"] and obs["escaped"] is None and "bad.f90" not in obs.get("files", ["bad.f90"]))
             c["obs"], c["run_files"] = obs, files
             if real.hangs >= MAX_PROJECT_HANGS:
@@ -1298,6 +1424,7 @@ def run(tier: str, seed: int, replay: str | None = None) -> int:
                 rep.tie_broken(f"projects: Project() did not return on {real.hangs} cases; the remaining "
                                f"{len(cases) - ci - 1} of {len(cases)} cases were not run")
                 break
+        lap("projects: real code")
         n_cases_not_run = len([c for c in cases if "obs" not in c])
         cases = [c for c in cases if "obs" in c]
         # ------------------------------------------------------------ project model, fed with the order
@@ -1326,6 +1453,7 @@ def run(tier: str, seed: int, replay: str | None = None) -> int:
             bad = c["bad"]
             bump(hist, bad["how"].split("@")[0].split(":")[0])
             bump(pos_hist, c["pos"])
+            bump(carrier_hist, c["carrier"])
             malformed = None
             if bad["form"] == "stmts":
                 malformed = validate(bad["stmts"])
@@ -1349,6 +1477,7 @@ def run(tier: str, seed: int, replay: str | None = None) -> int:
                 distinct.add(common.digest([(s["kind"]) for s in bad["stmts"]]))
             replay_case = {
                 "stream": "projects", "case": ci, "how": bad["how"], "position": c["pos"], "dbg": c["dbg"], "force": c["force"],
+                "carrier": c["carrier"], "names_on_disk": obs.get("disk"),
                 "files": [{"name": n_, "text": t if isinstance(t, str) else repr(t)} for n_, t in files],
                 "bad_kinds": [s["kind"] for s in bad.get("stmts", [])],
             }
@@ -1427,6 +1556,10 @@ def run(tier: str, seed: int, replay: str | None = None) -> int:
                         why.append(f"O1: valid file {gname} is no longer registered")
                     elif obs["paths"][gname] != base_obs["paths"].get(gname):
                         why.append(f"O1: entity tree of {gname} changed: {obs['paths'][gname]} vs {base_obs['paths'].get(gname)}")
+                    elif obs["details"][gname] != base_obs["details"].get(gname):
+                        diff = [f"{a} (without the additional file: {b_})" for a, b_ in
+                                zip(obs["details"][gname], base_obs["details"].get(gname) or []) if a != b_]
+                        why.append(f"O1: what is recorded inside the entities of {gname} (variables, call chains, uses) changed: {diff[:3]}")
                 if [f for f in obs["files"] if f in goodnames] != base_obs["files"]:
                     why.append("O1: order of the valid files changed")
                 rejected = [n_ for n_ in badnames if n_ not in obs["files"]]
@@ -1451,6 +1584,9 @@ def run(tier: str, seed: int, replay: str | None = None) -> int:
                 for n_ in rejected:
                     if not any(n_ in w for w in obs["warns"]):
                         why.append(f"O3: {n_} was rejected but no warning names it")
+                    elif not c20diag.named_on_terminal(obs, n_):
+                        why.append(f"O3: {n_} ({obs['disk'][n_]}) was rejected and warn() was given its name, but what "
+                                   f"warn() put on the terminal does not name it: {obs['warn_rendered']}")
                 if obs["unnamed_reports"]:
                     why.append("O3: an ERROR diagnostic does not name its file")
                 if not why and malformed is not None:
@@ -1467,15 +1603,21 @@ def run(tier: str, seed: int, replay: str | None = None) -> int:
             if len(samples) < 3 and mo["status"] == "skipped" and bad["form"] == "stmts" and len(bad["stmts"]) > 3:
                 samples.append({"how": bad["how"], "bad_file": text_of(bad["stmts"]).splitlines(), "position": c["pos"],
                                 "outcome": obs["excs"].get("bad.f90"), "warns": obs["warns"]})
+        lap("projects: model, compare, oracle")
         # ------------------------------------------------------------ the regular expressions
         corpus = sorted({s_["text"] for c in cases[:400] for _, src in c["files"] if src["form"] == "stmts"
                          for s_ in src["stmts"]})
         rx_cov = c20rx.run_stream(rep, drv, real, random.Random(seed * 7919 + 5), quick, corpus)
+        lap("patterns")
+        # ------------------------------------------------------------ the diagnostic channel
+        diag_cov = c20diag.run_stream(rep, drv, real, random.Random(seed * 6151 + 11), quick, cases, baselines)
+        lap("diagnostics")
         # ------------------------------------------------------------ e2e: full runs
         n_e2e_done, e2e_fail = e2e_stream(rep, rng, cases, baselines, n_e2e, seed)
+        lap("e2e")
     drv.close()
     rep.coverage.update(
-        evaluations=ev_rows + n_cases + n_e2e_done,
+        evaluations=ev_rows + n_cases + n_e2e_done + diag_cov["project_runs"],
         distinct_nontrivial=len(distinct),
         rule="a case = good files + corrupted file(s); non-trivial = the bad file is a statement sequence; "
              "distinct by digest of its statement-kind sequence",
@@ -1485,6 +1627,7 @@ def run(tier: str, seed: int, replay: str | None = None) -> int:
         oracle_failures=n_oracle_fail,
         corruption_histogram=dict(sorted(hist.items())),
         position_histogram=dict(sorted(pos_hist.items())),
+        carrier_histogram=dict(sorted(carrier_hist.items())),
         model_outcome_histogram=dict(sorted(out_hist.items())),
         exception_histogram=dict(sorted(err_hist.items())),
         report_histogram=dict(sorted(rep_hist.items())),
@@ -1501,6 +1644,8 @@ def run(tier: str, seed: int, replay: str | None = None) -> int:
         name_table_comparisons=n_names_checks,
         e2e_runs=n_e2e_done,
         patterns_stream=rx_cov,
+        diagnostics_stream=diag_cov,
+        seconds_per_stream=stream_s,
         variant=("repaired (a file with print_error reports is rejected when its constructor returns)" if repaired
                  else "asIs (print_error under dbg returns; reported files stay registered)"),
     )
@@ -1510,6 +1655,8 @@ def run(tier: str, seed: int, replay: str | None = None) -> int:
         "identifiers are compared as handed out when asked for in project order right after Project() returned (and in the complete runs of the e2e stream as they end up in the site)",
         "regular expressions: the model's alphabet is ASCII, look-behind assertions are taken as true, greedy / lazy order is not modelled (it does not change the number of ways); exponential blow-up of a loop is excluded by the table theorem for the `functional` class and searched for by pumping every loop; polynomial slowness is not looked for",
         "a direct call of a pattern is given 0.4 s (confirmed with 2 s) on a subject of 48 copies of a sampled loop iteration; Project() is given 10 s (4 s for a pumped statement)",
+        "diagnostics: what warn() prints is compared with blanks removed (rich wraps at the console width and expands tabs); a file counts as named when the last component of its path appears character by character; names are drawn from printable characters (no control characters, no newline); the output is not a terminal, so the progress bar is drawn once, when it is closed, with the file read last",
+        "rich (markup, emoji table, style names) and pcpp are third-party code on the implementation side: rich's escape / render are modelled as they are in the installed version and compared on every run, the model abstains (counted) where rich's style / emoji / handler tables decide; pcpp is not modelled (oracle only)",
     ]
     return rep.finish(lean)
 
@@ -1534,7 +1681,7 @@ def e2e_stream(rep, rng, cases, baselines, n, seed):
     ford = common.import_ford()
     import ford.fortran_project as fp
 
-    picked = [c for c in cases if c["dbg"] and c.get("real_skipped") and not c["extra"]]
+    picked = [c for c in cases if c["dbg"] and c.get("real_skipped") and not c["extra"] and c.get("carrier", "free") == "free"]
     rng.shuffle(picked)
     # a share of the runs for stale copies read before their original and for laid-out sources
     stale = [c for c in picked if "stale_of" in c["bad"] and c["k"] <= c["bad"]["stale_of"]]
